@@ -11,5 +11,8 @@ func initWorlds() {
 	worlds["C08"] = &iterWorld{}
 	worlds["C09"] = &histWorld{prop: "C09", tags: []string{"C09"}, kinds: []string{"linkedhashmap", "linkedhashset"}, minOps: 8}
 	worlds["C10"] = &histWorld{prop: "C10", tags: []string{"C10"}, kinds: []string{"hashbidimap", "treebidimap"}, minOps: 8}
+	worlds["C13"] = &algWorld{}
+	worlds["C14"] = &enumWorld{}
+	worlds["C16"] = &scribbleWorld{}
 	worlds["C15"] = &histWorld{prop: "C15", tags: []string{"C15"}, kinds: allKinds, c15: true, minOps: 8}
 }
